@@ -135,8 +135,8 @@ Proof.
     destruct (feed_blocks (with_dec v0 (mr_state r)) th0 now (mr_blocks r)) as [[v1 th1] o1]. cbn [fst snd] in *.
     destruct H1 as (P1 & _). cbn [with_dec set_open v_open] in P1.
     rewrite !pts_of_app, G0. cbn [app].
-    assert (He : pts_of (if mr_bad_blkid r && negb (d_blkid_err (v_desc v) =? 0) then [OErr (d_blkid_err (v_desc v))] else []) = []).
-    { destruct (_ && _); reflexivity. }
+    assert (He : pts_of (if mr_bad_blkid r then [OErr ERR_WRONGMSOPBLKID] else []) = []).
+    { destruct (mr_bad_blkid r); reflexivity. }
     rewrite He, app_nil_r, P1, G1. reflexivity.
   - pose proof (mems_subs_pts now host (Z.to_nat (if d_n_sub (v_desc v) =? 0 then 1 else d_n_sub (v_desc v))) 0 v0 th0 b false) as H1.
     cbv zeta in H1.
